@@ -187,7 +187,10 @@ pub fn random(args: &Args) {
     let nservers = args.usize("servers", 1);
     let mut t = Trace::create(&args.str("out", ""));
     // (the last name is resolved by multicast DNS: first the IPv6 group, after 10 s the IPv4 group)
-    let names = ["a.example.org", "b.example.org", "www.smoltcp.net", "printer.local"];
+    // (the last two are as long as a name may be, 255 octets on the wire, and three octets short of that)
+    let long_a = format!("{}.{}.{}.{}", "a".repeat(63), "b".repeat(63), "c".repeat(63), "d".repeat(61));
+    let long_b = format!("{}.{}.{}.{}", "a".repeat(63), "b".repeat(63), "c".repeat(63), "d".repeat(58));
+    let names = ["a.example.org", "b.example.org", "www.smoltcp.net", "printer.local", long_a.as_str(), long_b.as_str()];
     for run in 0..runs {
         let mut rng = Rng::new(seed0.wrapping_mul(13_000_003).wrapping_add(run as u64));
         let mut dev = QDev::new(Medium::Ip, 1500);
@@ -213,7 +216,7 @@ pub fn random(args: &Args) {
             if q == 1 && start2 > now {
                 break;
             }
-            let name = names[if rng.chance(25) { 3 } else { rng.below(3) as usize }];
+            let name = names[if run % 8 == 6 { 4 + (run / 8) % 2 } else if rng.chance(25) { 3 } else { rng.below(3) as usize }];
             let r = sockets.get_mut::<dns::Socket>(h).start_query(iface.context(), name, DnsQueryType::A);
             t.ev(json!({"ev":"api","now":now,"call":"start","q":q,"name":name,"ok":r.is_ok()}));
             started += 1;
@@ -230,7 +233,7 @@ pub fn random(args: &Args) {
         while now < horizon && steps < 400 && (handles.iter().any(|x| x.3) || started < nq) {
             steps += 1;
             if started < nq && now >= start2 {
-                let name = names[if rng.chance(25) { 3 } else { rng.below(3) as usize }];
+                let name = names[if run % 8 == 6 { 4 + (run / 8) % 2 } else if rng.chance(25) { 3 } else { rng.below(3) as usize }];
                 let r = sockets.get_mut::<dns::Socket>(h).start_query(iface.context(), name, DnsQueryType::A);
                 t.ev(json!({"ev":"api","now":now,"call":"start","q":1,"name":name,"ok":r.is_ok()}));
                 started += 1;
